@@ -5,9 +5,12 @@ L1: field-name lists and value lists of the real classes (objects constructed di
     model for fresh random configurations / operations, compared inside Coq by vm_compute.
 L2: marker experiment on the implementation only: a snax_stream.streaming_region with pairwise
     distinct markers in every bound/stride position is lowered by the real convert_to_acc_ops (and the
-    real convert-linalg-to-accfg pass for the registered accelerators); the constant feeding each
+    real convert-linalg-to-accfg pass for the registered accelerators: snax_alu, snax_gemmx, and snax_xdma in
+    a clone of the snax-opt context with snax_xdma registered); the constant feeding each
     *named* field of the emitted accfg.setup is read back and compared with what the NAME says
-    (independent name parser below, no model involved).
+    (independent name parser below, no model involved).  Also: snax_phs accelerators built as phsc does
+    (merged PE + TemplateSpec), snax_alu's legacy linalg.generic route, snax_hwpe_mult, and the verifier's
+    rejection of patterns with more dims than the streamer (what makes the generators' truncation unreachable).
 """
 from __future__ import annotations
 
@@ -21,7 +24,9 @@ PROPERTY = "C08"
 MODEL_TARGETS = ["Model/C08StreamerCfg.vo", "Model/C08Accels.vo", "Model/C08Check.vo"]
 RULE = ("streamer configurations: 1-5 (rarely 27) streamers, 1-6 temporal dims with n/i/r flags, 1-2 spatial dims, "
         "random ordered subset of the 4 options and 7 extensions; operations: stride patterns with pairwise distinct "
-        "marker integers, random zero strides, shorter/longer dimension lists, zero-pointer operands; a case is "
+        "marker integers, random zero strides, shorter/longer dimension lists, zero-pointer operands; gemmx bodies "
+        "mac/qmac x i32/i8/rescale, gemm (mac+add[+rescale]), rescale-only, unsupported; xDMA bodies none/test.op/add/"
+        "rescale up/down; snax_phs: PE merged from 1-3 of 6 kernels x 4 TemplateSpecs; a case is "
         "non-trivial when the configuration has >= 2 streamers or >= 1 option; distinct = distinct (cfg, op)")
 TRUSTED_BASE = [
     "Coq 8.16.1 kernel + vm_compute (no native_compute)",
@@ -151,6 +156,23 @@ def xctx():
     return _XCTX
 
 
+_XDMA_CTX = None
+
+
+def xdma_ctx():
+    """The snax-opt context plus `snax_xdma` (snax-opt registers only alu/gemmx/hwpe/gemmini; snaxc registers
+    snax_xdma from a hardware configuration file).  The registered factory is the class itself, i.e. the default
+    xDMA streamer configuration, exactly what `ctx.get_acc("snax_xdma")` returns inside the pass."""
+    global _XDMA_CTX
+    if _XDMA_CTX is None:
+        from snaxc.accelerators.snax_xdma import SNAXXDMAAccelerator
+        c = xctx().clone()
+        if c.get_optional_accelerator("snax_xdma") is None:
+            c.register_accelerator("snax_xdma", SNAXXDMAAccelerator)
+        _XDMA_CTX = c
+    return _XDMA_CTX
+
+
 def _ilist(xs):
     return "[" + ", ".join(str(x) for x in xs) + "]"
 
@@ -181,10 +203,10 @@ def region_text(opspec, accelerator, body):
     return f"func.func @f({', '.join(fargs)}) {{\n" + "\n".join(lines) + "\nfunc.return\n}\n"
 
 
-def parse_region(text):
+def parse_region(text, the_ctx=None):
     from xdsl.parser import Parser
     from snaxc.dialects.snax_stream import StreamingRegionOp
-    mod = Parser(xctx(), text).parse_module()
+    mod = Parser(the_ctx or xctx(), text).parse_module()
     for o in mod.walk():
         if isinstance(o, StreamingRegionOp):
             return mod, o
@@ -235,7 +257,8 @@ def xdma_body(kind, nargs, resc=None):
 
 
 def gemmx_body(kind, nargs, zp=(0, 0), resc=None):
-    """kind in mac_i32 qmac_i32 mac_i8 qmac_i8 mac_resc qmac_resc rescale_only other"""
+    """kind in mac_i32 qmac_i32 mac_i8 qmac_i8 mac_resc qmac_resc rescale_only other and the gemm variants
+    mac_add_i32 qmac_add_i32 mac_add_resc qmac_add_resc (a kernel.add generic between the mac and the rescale)"""
     args = ["i8", "i8"] + ["i32"] * (nargs - 2)
     pre = [f"%zpa = arith.constant {zp[0]} : i32", f"%zpb = arith.constant {zp[1]} : i32"]
     if kind == "rescale_only":
@@ -255,12 +278,17 @@ def gemmx_body(kind, nargs, zp=(0, 0), resc=None):
     else:
         ops = _generic("%g", ["%s0", "%s1"], ["!dart.stream<i8>", "!dart.stream<i8>"], "%a : i8, %b : i8, %c : i32",
                        "%k = kernel.mac %a, %b : i8, i8 -> i32", "i32", "%k")
+    cur = "%g"
+    if "_add_" in kind:        # gemm: a second generic adds the C stream (operand 2) before the optional rescale
+        ops += _generic("%ga", ["%g", "%s2"], ["!dart.stream<i32>"] * 2, "%a1 : i32, %b1 : i32, %c1 : i32",
+                        "%k1 = kernel.add %a1, %b1 : i32, i32 -> i32", "i32", "%k1")
+        cur = "%ga"
     if kind.endswith("_i32"):
-        return {"args": args, "pre": pre, "ops": ops + ["dart.yield %g : !dart.stream<i32>"]}
+        return {"args": args, "pre": pre, "ops": ops + [f"dart.yield {cur} : !dart.stream<i32>"]}
     if kind.endswith("_i8"):   # i8 output without a rescale kernel: defaults are used
-        ops += ['%t = "test.op"(%g) : (!dart.stream<i32>) -> !dart.stream<i8>', "dart.yield %t : !dart.stream<i8>"]
+        ops += [f'%t = "test.op"({cur}) : (!dart.stream<i32>) -> !dart.stream<i8>', "dart.yield %t : !dart.stream<i8>"]
         return {"args": args, "pre": pre, "ops": ops}
-    ops += _generic("%h", ["%g"], ["!dart.stream<i32>"], "%a2 : i32, %c2 : i8",
+    ops += _generic("%h", [cur], ["!dart.stream<i32>"], "%a2 : i32, %c2 : i8",
                     f'%k2 = "kernel.rescale"(%a2) {_rescale_attrs(resc)} : (i32) -> i8', "i8", "%k2")
     return {"args": args, "pre": pre, "ops": ops + ["dart.yield %h : !dart.stream<i8>"]}
 
@@ -524,6 +552,24 @@ def correspondence(ctx):
         ctx.count({"kind": "gemmx", "n": n, "body": kind, "op": opspec}, True, f"gx{spec}{n}{opspec}{kind}{resc}", "gemmx:" + kind)
     groups.append(("gemmx", "chk_gemmx", cases, meta))
 
+    # snax_phs: streamer part + one value per phs_switch_<i> field + loop bound (switch VALUES are the decoder's, C20)
+    cases, meta = [], []
+    for i in range(ctx.n(24, 120)):
+        case = gen_phs_case(rng)
+        spec = phs_spec_of(phs_accelerator(case["kernels"], case["order"], case["tmpl"]))
+        opspec = gen_op(rng, spec, valid_only=(i % 3 != 0))
+        if len(opspec["operands"]) != 3 or len(opspec["pats"]) != 3:
+            opspec = gen_op(rng, spec, valid_only=True)
+        r = impl_phs(case, opspec)
+        if r is None:
+            ctx.count(dict(case, op=opspec), False, None, "phs-undecodable")
+            continue
+        spec, fields, nsw, sw, vals = r
+        cases.append(f"({coq_cfg(spec)}, {coq_op(opspec)}, {nsw}%nat, {zlist(sw)}, {coq_fields(fields, i, every=2)}, {coq_vals(vals)})")
+        meta.append(dict(case, cfg=spec, op=opspec, fields=fields, switches=sw, vals=vals))
+        ctx.count(dict(case, op=opspec), True, f"phs{case}{opspec}", "phs")
+    groups.append(("phs", "chk_phs", cases, meta))
+
     # hwpe
     fields, hv = impl_hwpe()
     lit = {"ptr": lambda k: f"HPtr {k}", "dim0": lambda k: "HDim0", "one": lambda k: "HOne", "?": lambda k: "HPtr 99"}
@@ -540,7 +586,8 @@ XDMA_DEFAULT = [("nnnnn", [8], ["EMaxPool", "EAdd", "EAddLong", "ERescaleDown", 
 GEMMX_DEFAULT = [("nnnnnn", [8], ["ETranspose", "OAddrRemap"]), ("nnn", [8], ["ETranspose", "OAddrRemap"]),
                  ("rnn", [8], ["OAddrRemap"]), ("rnn", [8, 4], ["OChanMask", "OAddrRemap", "OBroadcast"]),
                  ("rnn", [8, 4], ["OAddrRemap"])]
-GEMMX_BODIES = ["mac_i32", "qmac_i32", "mac_i8", "qmac_i8", "mac_resc", "qmac_resc", "rescale_only", "other"]
+GEMMX_BODIES = ["mac_i32", "qmac_i32", "mac_i8", "qmac_i8", "mac_resc", "qmac_resc", "rescale_only", "other",
+                "mac_add_i32", "qmac_add_i32", "mac_add_resc", "qmac_add_resc"]   # *_add_*: gemm (mac, add[, rescale])
 
 
 def impl_alu(spec, opspec):
@@ -663,6 +710,74 @@ func.func public @simple_mult(%A: memref<?xi32>, %B: memref<?xi32>, %D: memref<?
 """
 
 
+ALU_LINALG_TEXT = """
+func.func public @simple_add(%A: memref<?xi64>, %B: memref<?xi64>, %D: memref<?xi64>) -> () {
+  linalg.generic { indexing_maps = [], iterator_types = ["parallel"], library_call = "snax_alu" }
+  ins(%A, %B: memref<?xi64>, memref<?xi64>) outs(%D: memref<?xi64>) {
+  ^bb0(%a: i64, %b: i64, %d: i64):
+    %r0 = arith.addi %a, %b : i64
+    linalg.yield %r0 : i64
+  }
+  func.return
+}
+"""
+
+
+def l2_alu_linalg():
+    """snax_alu's legacy linalg.generic route (SNAXAluAccelerator._generate_setup_vals: a hand-written value list
+    for the DEFAULT streamer configuration), through the real convert-linalg-to-accfg pass: every named register
+    of the emitted accfg.setup against what its name says (pointer of operand k / 0 / element size 8 / dim(A,0)/4 /
+    4 elements * 8 bytes)."""
+    from xdsl.dialects import arith, linalg, memref
+    from xdsl.parser import Parser
+    from snaxc.accelerators.snax_alu import SNAXAluAccelerator
+    from snaxc.dialects import accfg
+    from snaxc.transforms.convert_linalg_to_accfg import ConvertLinalgToAccPass
+    mod = Parser(xctx(), str(SNAXAluAccelerator().generate_acc_op()) + ALU_LINALG_TEXT).parse_module()
+    g = [o for o in mod.walk() if isinstance(o, linalg.GenericOp)][0]
+    operands = list(g.operands)
+    ConvertLinalgToAccPass().apply(xctx(), mod)
+    mod.verify()
+    setup = [o for o in mod.walk() if isinstance(o, accfg.SetupOp)][0]
+    names = [p.data for p in setup.param_names]
+
+    def const_of(v):
+        ow = v.owner
+        return ow.value.value.data if isinstance(ow, arith.ConstantOp) else None
+
+    def classify(v):
+        ow = v.owner
+        if isinstance(ow, arith.ConstantOp):
+            return ("c", ow.value.value.data)
+        if isinstance(ow, arith.IndexCastOp):
+            src = ow.input.owner
+            if isinstance(src, arith.DivUIOp) and isinstance(src.lhs.owner, memref.DimOp) and \
+                    src.lhs.owner.source is operands[0] and const_of(src.lhs.owner.index) == 0 and const_of(src.rhs) == 4:
+                return ("dim0/4", 0)
+            if isinstance(src, arith.AddiOp) and isinstance(src.lhs.owner, memref.ExtractAlignedPointerAsIndexOp):
+                ref = src.lhs.owner.source
+                return ("ptr", [k for k, o in enumerate(operands) if o is ref][0])
+        return ("?", getattr(ow, "name", str(ow)))
+
+    got = [classify(v) for v in setup.values]
+    probs = []
+    if len(names) != len(got):
+        probs.append({"what": "count", "fields": len(names), "values": len(got)})
+    for name, gv in zip(names, got):
+        m = NAME_RE.match(name)
+        if m:
+            s_, kind = string.ascii_lowercase.index(m.group(1)), m.group(2)
+            want = {"ptr_low": ("ptr", s_), "ptr_high": ("c", 0), "sstride_0": ("c", 8), "bound_0": ("dim0/4", 0),
+                    "tstride_0": ("c", 32)}.get(kind)
+        else:
+            want = {"alu_mode": ("c", 0), "loop_bound_alu": ("dim0/4", 0)}.get(name)
+        if want is None:
+            probs.append({"what": "unknown-field", "field": name})
+        elif want != gv:
+            probs.append({"what": "value", "field": name, "want": want, "got": gv})
+    return probs
+
+
 def impl_hwpe():
     """field names and a classification of each generated value by the computation that produces it."""
     from xdsl.dialects import arith, linalg, memref
@@ -689,6 +804,125 @@ def impl_hwpe():
                 kind = ("ptr", [k for k, o in enumerate(operands) if o is ref][0])
         out.append(kind)
     return list(acc.fields), out
+
+
+# ---------------------------------------------------------------- snax_phs
+# kernels over two i32 inputs (bodies of the dart.generic inside the streaming region)
+PHS_KERNELS = [
+    ["%v0 = arith.addi %a, %b : i32"],
+    ["%v0 = arith.muli %a, %b : i32"],
+    ["%v0 = arith.muli %a, %b : i32", "%v1 = arith.addi %v0, %a : i32"],
+    ["%v0 = arith.subi %a, %b : i32", "%v1 = arith.muli %v0, %b : i32"],
+    ["%v0 = arith.addi %a, %b : i32", "%v1 = arith.addi %v0, %b : i32", "%v2 = arith.muli %v1, %a : i32"],
+    ["%v0 = arith.andi %a, %b : i32", "%v1 = arith.ori %v0, %b : i32"],
+]
+# TemplateSpec (input maps, output maps, bounds): they fix the streamer configuration of the accelerator
+PHS_TEMPLATES = [
+    (("(d0) -> (d0)", "(d0) -> (d0)"), ("(d0) -> (d0)",), (4,)),
+    (("(d0, d1) -> (d0, d1)", "(d0, d1) -> (d0, d1)"), ("(d0, d1) -> (d0, d1)",), (4, 2)),
+    (("(d0, d1) -> (d0)", "(d0, d1) -> (d1)"), ("(d0, d1) -> (d0, d1)",), (8, 2)),
+    (("(d0, d1, d2) -> (d0, d2)", "(d0, d1, d2) -> (d2, d1)"), ("(d0, d1, d2) -> (d0, d1)",), (2, 4, 2)),
+]
+
+
+def phs_body(k):
+    lines = PHS_KERNELS[k]
+    last = "%v" + str(len(lines) - 1)
+    ops = [f'%g = "dart.generic"(%s0, %s1) <{{library_call = "x"}}> ({{', "^bb1(%a : i32, %b : i32, %c : i32):"]
+    ops += ["  " + ln for ln in lines] + [f"  dart.yield {last} : i32",
+                                          "}) : (!dart.stream<i32>, !dart.stream<i32>) -> !dart.stream<i32>"]
+    return {"args": ["i32"] * 3, "ops": ops + ["dart.yield %g : !dart.stream<i32>"]}
+
+
+def phs_accelerator(kernels, order, tmpl):
+    """The accelerator snaxc/tools/phsc_main.py builds: a PE merged from the kernels (in `order`) + a TemplateSpec."""
+    from xdsl.ir.affine import AffineMap
+    from xdsl.parser import Parser
+    from xdsl.pattern_rewriter import PatternRewriter
+    from snaxc.accelerators.snax_phs import SNAXPHSAccelerator
+    from snaxc.phs.combine import append_to_abstract_graph
+    from snaxc.phs.encode import convert_generic_body_to_phs
+    from snaxc.phs.template_spec import TemplateSpec
+    dummy = {"pats": [([4], [8], [8])] * 3, "operands": ["p", "p", "p"]}
+    G = None
+    for j in order:
+        _, region = parse_region(region_text(dummy, "phs_acc", phs_body(kernels[j])))
+        gen = region.body.block.first_op
+        pe = convert_generic_body_to_phs(gen, "phs_acc", PatternRewriter(gen))
+        if G is None:
+            G = pe
+        else:
+            append_to_abstract_graph(pe, G)
+    ins, outs, bounds = PHS_TEMPLATES[tmpl]
+    amap = lambda t: Parser(xctx(), f"affine_map<{t}>").parse_attribute().data
+    spec = TemplateSpec(tuple(amap(t) for t in ins), tuple(amap(t) for t in outs), tuple(bounds))
+    return SNAXPHSAccelerator(G, spec)
+
+
+def phs_spec_of(acc):
+    """the streamer configuration the accelerator really has, as a model spec"""
+    return [("".join(str(f.value) for f in st.temporal_dims), [int(x) for x in st.spatial_dims], [])
+            for st in acc.streamer_config.data.streamers]
+
+
+def gen_phs_case(rng):
+    nk = rng.choice([1, 2, 2, 3])
+    kernels = rng.sample(range(len(PHS_KERNELS)), nk)
+    order = list(range(nk))
+    rng.shuffle(order)
+    return {"acc": "snax_phs", "kernels": kernels, "order": order, "use": rng.randrange(nk),
+            "tmpl": rng.randrange(len(PHS_TEMPLATES))}
+
+
+def phs_lower(case, opspec, through_convert):
+    """-> (acc, spec, region op, decoded switch values or None when the decoder (C20) refuses the kernel)"""
+    from xdsl.pattern_rewriter import PatternRewriter
+    from snaxc.phs.decode import decode_abstract_graph
+    from snaxc.phs.encode import convert_generic_body_to_phs
+    acc = phs_accelerator(case["kernels"], case["order"], case["tmpl"])
+    _, region = parse_region(region_text(opspec, "phs_acc", phs_body(case["kernels"][case["use"]])))
+    gen = region.body.block.first_op
+    try:
+        sw = [int(x) for x in decode_abstract_graph(acc.pe, convert_generic_body_to_phs(gen, "phs_acc", PatternRewriter(gen)))]
+    except Exception:   # noqa: BLE001  -- decoding is C20's subject
+        sw = None
+    return acc, region, sw
+
+
+def impl_phs(case, opspec):
+    acc, region, sw = phs_lower(case, opspec, False)
+    if sw is None:
+        return None
+    try:
+        vals = read_vals(region, acc._generate_stream_setup_vals(region))
+    except (IndexError, AssertionError):
+        vals = None
+    return phs_spec_of(acc), list(acc.fields), len(acc.phs_switch_fields), sw, vals
+
+
+def l2_phs(case, opspec):
+    acc, region, sw = phs_lower(case, opspec, True)
+    if sw is None:
+        return [], None
+    spec = phs_spec_of(acc)
+    names, got = lower_with(acc, region)
+    ub0 = opspec["pats"][0][0]
+    steps = _prod(ub0)
+
+    def extra(name):
+        m = re.match(r"^phs_switch_(\d+)$", name)
+        if m:
+            i = int(m.group(1))
+            return ("c", sw[i]) if i < len(sw) else None
+        if name == "loop_bound_alu":
+            return ("c", steps)
+        return None
+
+    probs = check_setup(names, got, spec, opspec, extra)
+    if sum(1 for nm in names if nm.startswith("phs_switch_")) != len(sw):
+        probs.append({"what": "count", "field": "phs_switch", "fields": names, "values": sw})
+    only_lb = probs and all(p.get("field") == "loop_bound_alu" and p.get("got") == ("c", ub0[0]) for p in probs)
+    return probs, ("alu_loop_bound_first_dim" if only_lb and len(ub0) > 1 else None)
 
 
 # ---------------------------------------------------------------- L2: the property on the implementation
@@ -781,6 +1015,25 @@ def l2_alu(spec, opspec):
     return probs, ("alu_loop_bound_first_dim" if only_lb and len(ub0) > 1 else None)
 
 
+def l2_overlong_rejected(opspec):
+    """The property quantifies over the patterns the streaming-region verifier accepts; the value generators read
+    only the first temporal_dim / spatial_dim entries of a longer pattern (silent truncation, modelled).  Both
+    drivers verify between passes, so truncation is unreachable exactly as long as StreamingRegionOp.verify_
+    rejects a pattern with more dims than its streamer: checked here on the default snax_alu (1 temporal, 1 spatial)."""
+    from xdsl.parser import Parser
+    from xdsl.utils.exceptions import VerifyException
+    from snaxc.accelerators.snax_alu import SNAXAluAccelerator
+    from snaxc.dialects.snax_stream import StreamingRegionOp
+    text = region_text(opspec, "snax_alu", {"args": ["i64"] * 3, "ops": []})
+    mod = Parser(xctx(), str(SNAXAluAccelerator().generate_acc_op()) + "\n" + text).parse_module()
+    region = [o for o in mod.walk() if isinstance(o, StreamingRegionOp)][0]
+    try:
+        region.verify_()
+    except VerifyException:
+        return []
+    return [{"what": "overlong-pattern-accepted", "field": "", "patterns": opspec["pats"]}]
+
+
 # ---- xDMA
 XNAME_RE = re.compile(r"^([a-z])_(enabled_chan|enabled_byte|bypass|([a-z_]+?)_(\d+))$")
 
@@ -838,27 +1091,54 @@ def l2_xdma(spec, opspec, kind, resc, through_pass=False):
     acc = SNAXXDMAAccelerator(mk_cfg(spec, xdma=True))
     text = region_text(opspec, "snax_xdma", xdma_body(kind, len(opspec["operands"]), resc))
     if through_pass:
-        names, got, matches = lower_through_pass(acc, text, xdma_matches)
+        names, got, matches = lower_through_pass(acc, text, xdma_matches, the_ctx=xdma_ctx())
     else:
         _, op = parse_region(text)
         matches = xdma_matches(op, spec)
         names, got = lower_with(acc, op)
     probs = check_setup(names, got, spec, opspec, xdma_extra(spec, opspec, matches, resc))
-    return probs, xdma_klass(spec, opspec, matches)
+    klass = xdma_klass(spec, opspec, matches)
+    # A known class explains only what it can cause; any other wrong register on such an input is new.
+    #  F7b (zero flags not uniform): wrong MASK values (enabled_chan / enabled_byte) only;
+    #  F7: a count mismatch and every register AFTER the first field that has no value of its own (an `enabled_chan`
+    #      of a streamer without HasChannelMask; the second CSR of a multi-CSR extension under a non-generic body).
+    zs = [k == "z" for k in opspec["operands"]]
+    by_f7b = lambda p: (any(z != zs[-1] for z in zs) and p.get("what") == "value"
+                        and re.search(r"_enabled_(chan|byte)$", str(p.get("field"))) is not None)
+    if klass == "xdma_zero_not_uniform" and not all(by_f7b(p) for p in probs):
+        klass = None
+    if klass == "not_safe_xdma":
+        oc = opt_classes()
+        bad = []
+        for si, (_, _, opts) in enumerate(spec):
+            letter = string.ascii_lowercase[si]
+            if "OChanMask" not in opts:
+                bad.append(f"{letter}_enabled_chan")
+            if matches is None:
+                bad += [f"{letter}_{oc[o]().name}_1" for o in opts if o.startswith("E") and oc[o]().csr_length > 1]
+        first_bad = min([names.index(x) for x in bad if x in names] or [0])
+        by_f7 = lambda p: p.get("what") == "count" or (p.get("field") in names and names.index(p["field"]) >= first_bad)
+        if not all(by_f7(p) or by_f7b(p) for p in probs):
+            klass = None
+    return probs, klass
 
 
-def lower_through_pass(acc, text, pre=None):
-    """module = accelerator op + function; the real convert-linalg-to-accfg pass (default configuration of the
-    registered accelerator) and the module verifier (SetupOp.verify_)."""
+def lower_through_pass(acc, text, pre=None, the_ctx=None):
+    """module = accelerator op + function; the streaming region is verified as both drivers do between passes
+    (StreamingRegionOp.verify_: number of patterns, no more dims than the streamer has), then the real
+    convert-linalg-to-accfg pass (default configuration of the registered accelerator) and the module verifier
+    (SetupOp.verify_)."""
     from xdsl.parser import Parser
     from snaxc.dialects import accfg
     from snaxc.dialects.snax_stream import StreamingRegionOp
     from snaxc.transforms.convert_linalg_to_accfg import ConvertLinalgToAccPass
-    mod = Parser(xctx(), str(acc.generate_acc_op()) + "\n" + text).parse_module()
+    the_ctx = the_ctx or xctx()
+    mod = Parser(the_ctx, str(acc.generate_acc_op()) + "\n" + text).parse_module()
     region = [o for o in mod.walk() if isinstance(o, StreamingRegionOp)][0]
+    region.verify_()
     extra = pre(region, None) if pre else None
     operands = list(region.operands)
-    ConvertLinalgToAccPass().apply(xctx(), mod)
+    ConvertLinalgToAccPass().apply(the_ctx, mod)
     mod.verify()
     setup = [o for o in mod.walk() if isinstance(o, accfg.SetupOp)][0]
     names = [p.data for p in setup.param_names]
@@ -1028,7 +1308,7 @@ def search(ctx, deep=False):
     for i in range(ctx.n(60, 400) * mult):
         default = i % 4 == 0
         spec = list(XDMA_DEFAULT) if default else gen_cfg(rng, xdma=True)
-        default = False   # snax_xdma is not among the accelerators snax-opt registers: no pass route
+        # default configuration: through the real pass, in the snax-opt context with snax_xdma registered (xdma_ctx)
         if not default and rng.random() < 0.75:
             spec = [(f, sp, opts if "OChanMask" in opts else opts + ["OChanMask"]) for (f, sp, opts) in spec]
         opspec = gen_op(rng, spec, valid_only=True)
@@ -1045,6 +1325,24 @@ def search(ctx, deep=False):
         default = spec == GEMMX_DEFAULT and n == 8
         case = {"cfg": spec, "n": n, "op": opspec, "body": kind, "zp": list(zp), "rescale": resc, "through_pass": default}
         run("snax_gemmx", "gemmx", lambda: l2_gemmx(spec, n, opspec, kind, zp, resc, default), case)
+
+    for i in range(ctx.n(20, 120) * mult):
+        case = gen_phs_case(rng)
+        spec = phs_spec_of(phs_accelerator(case["kernels"], case["order"], case["tmpl"]))
+        opspec = gen_op(rng, spec, valid_only=True)
+        opspec["pats"] = [((p[0] or [5]), (p[1] or [40]), p[2]) for p in opspec["pats"]]
+        run("snax_phs", "phs", lambda: l2_phs(case, opspec), dict(case, cfg=spec, op=opspec))
+
+    for i in range(ctx.n(6, 30)):
+        spec = [("n", [4], [])] * 3
+        opspec = gen_op(rng, spec, valid_only=True)
+        opspec["pats"] = [((p[0] or [5]), (p[1] or [40]), p[2]) for p in opspec["pats"]]
+        k = rng.randrange(3)
+        ub, ts, ss = opspec["pats"][k]
+        opspec["pats"][k] = (ub + [3], ts + [16], ss) if i % 2 else (ub, ts, ss + [64])
+        run("snax_alu", "overlong", lambda: l2_overlong_rejected(opspec), {"cfg": spec, "op": opspec, "route": "verify"})
+
+    run("snax_alu", "alu-linalg", l2_alu_linalg, {"route": "linalg.generic", "cfg": [["n", [4], []]] * 3})
 
     # hwpe: values against names
     fields, hv = impl_hwpe()
@@ -1079,6 +1377,10 @@ def _run_case(f):
     opspec = None
     if "op" in f:
         opspec = {"pats": [tuple(p) for p in f["op"]["pats"]], "operands": list(f["op"]["operands"])}
+    if acc == "snax_alu" and f.get("route") == "verify":
+        return l2_overlong_rejected(opspec), None
+    if acc == "snax_alu" and f.get("route") == "linalg.generic":
+        return l2_alu_linalg(), None
     if acc == "snax_alu":
         return l2_alu(spec, opspec)
     if acc == "snax_xdma":
@@ -1086,6 +1388,8 @@ def _run_case(f):
                        f.get("through_pass", False))
     if acc == "snax_gemmx":
         return l2_gemmx(spec, f["n"], opspec, f["body"], tuple(f["zp"]), f["rescale"], f.get("through_pass", False))
+    if acc == "snax_phs":
+        return l2_phs(f, opspec)
     if acc == "snax_hwpe_mult":
         fields, hv = impl_hwpe()
         return [{"what": "value", "fields": fields, "values": hv}] if hv[3][0] == "one" and hv[4][0] == "dim0" else [], "hwpe_names_swapped"
@@ -1106,7 +1410,7 @@ def replay(ctx, obj):
     if not f:
         print("no failing input recorded; broken obligations:", obj.get("no_longer_checks"))
         return 1
-    for k in ("acc", "cfg", "n", "op", "body", "zp", "rescale"):
+    for k in ("acc", "route", "cfg", "n", "op", "body", "zp", "rescale", "kernels", "order", "use", "tmpl"):
         if k in f:
             print(f"{k}:", f[k])
     try:
